@@ -34,6 +34,12 @@ def find_calls(t, pred, under_lambda=False, after_try=False, in_try=False, out=N
     if k == 'after_try':
         find_calls(t[1], pred, under_lambda, True, False, out)
         return out
+    if k == 'intry':        # a value computed inside the try body and used later
+        find_calls(t[1], pred, under_lambda, False, True, out)
+        return out
+    if k == 'pretry':       # a value computed before the try
+        find_calls(t[1], pred, under_lambda, False, False, out)
+        return out
     if k == 'try':
         find_calls(t[1], pred, under_lambda, after_try, True, out)
         for h in t[2]:
